@@ -194,7 +194,7 @@ func genLeftover(cfg simkit.RunConfig, backend string) *Scenario {
 	nk := 2 + r.Intn(3)
 	keys := keyPool[:nk]
 	n := 2 + r.Intn(4)
-	o := genOpts{maxTxns: 6, pessRate: 0.7, backend: backend}
+	o := genOpts{maxTxns: 6, pessRate: 0.7, backend: backend, boundedRiter: true}
 	for i := 0; i < n; i++ {
 		p := genTxn(r, i, sc.Clients, o, keys)
 		// more locking, with all option mixes
@@ -214,6 +214,13 @@ func genLeftover(cfg simkit.RunConfig, backend string) *Scenario {
 		}
 		if r.Intn(4) == 0 {
 			p.End = "rollback"
+		}
+		// nothing expires in this mode: unbounded lock waits would only spin on application-level
+		// wait cycles (a commit blocked by a lock whose owner waits for the committer)
+		for j := range p.Ops {
+			if p.Ops[j].Kind == "lock" && !p.Ops[j].NoWait && p.Ops[j].WaitMs == 0 {
+				p.Ops[j].WaitMs = 50 + r.Intn(2000)
+			}
 		}
 		sc.Txns = append(sc.Txns, p)
 	}
